@@ -1,5 +1,5 @@
 (* C16: the filter succeeds on every document whose region geometry is well typed (style_properties.py validate: origin,
-   extent and position are of their value class and not in em), outside the two recorded triggers. *)
+   extent and position are of their value class and not in em), outside the recorded trigger lcd-position. *)
 From TT Require Import Model.Doc Gen.StyleTables Model.Isd Model.Lcd Spec.IsdSpec Spec.LcdSpec Model.LcdCases
   Proofs.Common.ElemInd Proofs.C16.Basics Proofs.C16.Prov Proofs.C16.Static Proofs.C16.Refs Proofs.C16.Idem.
 
@@ -145,13 +145,11 @@ Proof.
     rewrite Eo. eexists. reflexivity.
 Qed.
 
-Theorem total_partial_thm c d : lcd_typed d = true -> trig_total c d = false -> exists d', lcd c d = Ok d'.
+Theorem total_partial_thm c d : lcd_typed d = true -> trig_position d = false -> exists d', lcd c d = Ok d'.
 Proof.
-  unfold lcd_typed, trig_total. intros Ht Hg. apply andb_true_iff in Ht as [Hr Hi]. apply orb_false_iff in Hg as [Hp Hb].
+  unfold lcd_typed. intros Ht Hp. apply andb_true_iff in Ht as [Hr Hi].
   rewrite forallb_forall in Hr. unfold trig_position in Hp. pose proof (existsb_false_forall _ _ Hp) as Hp'. cbv beta in Hp'.
   destruct (lcd_regions_ok c d (keep_styles c (d_initials d)) (eq_trans (inits_keep c _) Hi) (d_regions d) []) as [out Eo].
   { intros r Hin. split; [exact (Hr _ Hin) | exact (Hp' _ Hin)]. }
-  unfold lcd. rewrite Eo. cbn [bind]. unfold trig_nobody in Hb.
-  destruct (c_bg c) as [col|]; [|cbn [bind]; eexists; reflexivity].
-  destruct (d_body d) as [b|]; [|discriminate]. cbn [option_map bind]. eexists. reflexivity.
+  unfold lcd. rewrite Eo. cbn [bind]. eexists. reflexivity.
 Qed.
